@@ -1,6 +1,7 @@
 package c02
 
 import (
+	"context"
 	"encoding/json"
 	"errors"
 	"fmt"
@@ -69,11 +70,24 @@ func (a *scripted) Authenticate(params interface{}) (bool, interface{}, error) {
 		return true, nil, nil
 	case o == "plain":
 		return true, nil, errors.New(rejMessage(a.name, o))
+	case o == "plainctx":
+		return true, nil, wrapped{rejMessage(a.name, o), context.Canceled}
+	case o == "plaindl":
+		return true, nil, wrapped{rejMessage(a.name, o), context.DeadlineExceeded}
 	case strings.HasPrefix(o, "rej"):
 		return true, nil, oerr.New(int32(rejStatus(o)), rejMessage(a.name, o))
 	}
 	return false, nil, nil
 }
+
+// wrapped is a plain error that wraps one of the standard library's sentinel errors.
+type wrapped struct {
+	msg   string
+	inner error
+}
+
+func (w wrapped) Error() string { return w.msg }
+func (w wrapped) Unwrap() error { return w.inner }
 
 func newAuthorizer(kind string, log *callLog) runtime.Authorizer {
 	if kind == "none" {
@@ -179,7 +193,7 @@ func isSchemeError(err error, s, o string) bool {
 		return false
 	}
 	e, coded := err.(oerr.Error)
-	if o == "plain" {
+	if isPlain(o) {
 		return !coded
 	}
 	return coded && int(e.Code()) == rejStatus(o)
